@@ -140,3 +140,14 @@ prop("C16", [_lazy("cli_flow", "rule_optflow1"), _lazy("cli_flow", "rule_optflow
      "accumulation, no order-changing operation is applied (SEQ-1).",
      "dict_lookup / iter_json_file semantics on data; equality of CLI text and library text on concrete inputs; "
      "the relative order of -m and the deprecated -l samples (argparse separates them)")
+
+prop("C18", [_lazy("converters", "rule_tok1"), _lazy("converters", "rule_tok2"), _lazy("converters", "rule_tok3"),
+             _lazy("converters", "rule_null1"), _lazy("state", "rule_glob1")],
+     "Static decision of: the path tokens and both separators emitted by the generator are the ones the post-init "
+     "interpreter dispatches / splits on, and its type-argument index per container token matches the emitted "
+     "annotation form (TOK-1); every IR class that rapid type analysis shows the inference pipeline can put in a "
+     "field type has an arm in the path writer, container classes have token-producing arms (TOK-2); decorator "
+     "entries are named with the same conversion as the field definitions (TOK-3); under the Optional token a None "
+     "value is returned before any container branch can iterate it (NULL-1); the converter runtime keeps no state "
+     "shared between classes (GLOB-1).",
+     "that converted values equal parsing the original strings; behaviour of the per-field attrs converter form")
